@@ -173,3 +173,13 @@ func VerifQuote(str string, jsonMode bool) string {
 	pc.appendQuotedString(str)
 	return string(pc.buf)
 }
+
+// VerifPoolRestState takes a print context from the pool, reports the scratch
+// fields that are expected to be back at their rest values between records,
+// and returns the context to the pool.
+func VerifPoolRestState() (prefix string, inGrouped, skipComma bool) {
+	pc := poolPrintCtx.Get().(*PrintCtx)
+	prefix, inGrouped, skipComma = pc.prefix, pc.inGroupedMode, pc.skipComma
+	poolPrintCtx.Put(pc)
+	return
+}
